@@ -66,7 +66,30 @@ def check(ctx, rng, i):
            "dtype": str(S.dtype), "exc": {k: [v.real, v.imag] for k, v in exc.items()}, "params": {k: [float(x) for x in v] for k, v in params.items()}}
     ctx.case(rep, nontrivial=(n >= 2 and not np.allclose(S[0], S[0].T)), tags=[f"n:{n}", f"ns:{ns}", f"dtype:{S.dtype}"],
              sample={"n": n, "ns": ns, "excited": sorted(exc)} if i < 2 else None)
-    return run_case(ctx, m, S, pins, idx, params, exc, rep)
+    # a third of the models are read, then have their pins renamed among each other (a swap or a cycle re-uses names that were
+    # just read for other pins) or to fresh names, and are read again: the read-outs follow the current names
+    if n >= 2 and rng.random() < 0.35:
+        perm = list(range(n))
+        rng.shuffle(perm)
+        rep["rename"] = [[pins[i].basename, pins[i].mode_name] if rng.random() < 0.8 else [f"z{i}", None] for i in perm]
+    return run_twice(ctx, m, S, pins, idx, params, exc, rep)
+
+
+def run_twice(ctx, m, S, pins, idx, params, exc, rep):
+    L = impl.lk()
+    ok = run_case(ctx, m, S, pins, idx, params, exc, rep)
+    if ok is False or not rep.get("rename"):
+        return ok
+    new = [L.Pin(b, mo) for b, mo in rep["rename"]]
+    if len({p.name for p in new}) != len(new):
+        return ok
+    try:
+        m.pin_mapping({old: nw for old, nw in zip(pins, new)})
+    except Exception as e:  # noqa
+        return bad(ctx, f"C15:rename-raised-{type(e).__name__}", f"renaming the pins of a solved model among each other raised {type(e).__name__}: {str(e)[:60]}", rep)
+    exc2 = {nw.name: exc[old.name] for old, nw in zip(pins, new) if old.name in exc}
+    ctx.tag("stream:renamed-after-read")
+    return run_case(ctx, m, S, new, idx, params, exc2, dict(rep, after_rename=True))
 
 
 def run_case(ctx, m, S, pins, idx, params, exc, rep):
@@ -268,7 +291,7 @@ def replay(ctx, data):
     params = {k: np.array(v) for k, v in data["params"].items()}
     m = L.SolvedModel(pin_dic={p: i for p, i in zip(pins, data["idx"])}, param_dic=params, Smatrix=S.copy())
     exc = {k: complex(v[0], v[1]) for k, v in data["exc"].items()}
-    run_case(ctx, m, S, pins, data["idx"], params, exc, data)
+    run_twice(ctx, m, S, pins, data["idx"], params, exc, {k: v for k, v in data.items() if k != "after_rename"})
     if ctx.violations:
         return False, ctx.violations[0]["what"]
     return True, "read-outs are faithful views of S"
